@@ -32,8 +32,10 @@ def run(ctx):
     binf = lf.build_async("lex")
     d = vlib.scratch_dir()
     try:
-        consts = dict(Seed=str(ctx.seed), NSample="4000" if ctx.quick else "20000", MaxLen="2" if ctx.quick else "3",
-                      PairN="10", NRandStr="40" if ctx.quick else "400")
+        consts = dict(Seed=str(ctx.seed), NSample="3000" if ctx.quick else "20000", MaxLen="2" if ctx.quick else "3",
+                      PairN="10", NRandStr="40" if ctx.quick else "400",
+                      SynFolN="4" if ctx.quick else "7", SynLongFolN="1" if ctx.quick else "4",
+                      SynLongAllVias="FALSE" if ctx.quick else "TRUE")
         jobs = [("gen", None)]
         if not ctx.quick:
             nchunks = 16
@@ -50,7 +52,7 @@ def run(ctx):
                 summ = lf.summary(p.stdout)
                 if summ["cases"] != n:
                     raise vlib.HarnessError("lex c13 consumed %d of %d cases" % (summ["cases"], n))
-                nrec = n + summ["e2e"]
+                nrec = summ["unit"] + summ["e2e"]
                 jres, bad, _ = lf.judge("LexTextTrace", "LexTextTrace.cfg", rec)
                 rows = vlib.read_ndjson(rec)
                 smp = [rows[0]] + [r for r in rows if r["kind"] == "e2e"][:1]
@@ -61,7 +63,7 @@ def run(ctx):
             summ = lf.summary(p.stdout)
             jres, bad, _ = lf.judge("LexTextTrace", "LexTextTrace.cfg", rec, consts=dict(Ordered="TRUE", Base=str(lo)))
             os.unlink(rec)
-            return kind, None, jres, hi - lo, dict(cases=hi - lo, e2e=0, distinct=hi - lo, nontrivial=hi - max(lo, 128) if hi > 128 else 0), bad, []
+            return kind, None, jres, hi - lo, dict(cases=hi - lo, unit=hi - lo, e2e=0, distinct=hi - lo, nontrivial=hi - max(lo, 128) if hi > 128 else 0), bad, []
 
         allbad = []
         tot = dict(rec=0, e2e=0, distinct=0, nontrivial=0, swept=0)
@@ -80,28 +82,40 @@ def run(ctx):
             for s in smp:
                 ev.sample(s)
             allbad += bad
-        # classes: a failing single code point is its own class; a failing string is attributed to a failing code point it contains
-        single = set(b["rec"]["cps"][0] for b in allbad if len(b["rec"]["cps"]) == 1)
+        # classes: a failing single code point is its own class; a failing string is attributed to a failing code point it contains;
+        # a failing syntax-spelling text to its (keyword, short/long) class
+        single = set(b["rec"]["cps"][0] for b in allbad if len(b["rec"]["cps"]) == 1 and not b["rec"]["tag"])
         classes = lf.Classes()
         for b in allbad:
             r = b["rec"]
             culprit = [cp for cp in r["cps"] if cp in single]
-            who = "U+%04X" % culprit[0] if culprit else "text=" + "-".join("%04X" % cp for cp in r["cps"])
+            shown = " ".join("U+%04X" % cp for cp in r["cps"][:24])
+            if culprit:
+                who = "U+%04X" % culprit[0]
+            elif r["tag"]:
+                kw, coding, fol, pos, lc = r["tag"].split("|")
+                who = "spell:%s|%s" % (kw, "short" if lc == "short" else "long")
+                shown = "%d x U+%04X + [%s] + %d x U+%04X (bytes spell %s, coding %s, follower 0x%02x, position %s, length class %s)" % (
+                    r["pre"], r["fill"], shown, r["post"], r["fill"], kw, coding, int(fol[1:]), pos, lc)
+            else:
+                who = "text=" + "-".join("%04X" % cp for cp in r["cps"])
             stage = r["kind"] + (":" + r["via"] if r["via"] else "")
             key = "%s|%s|%s" % (who, stage, ",".join(sorted(b["why"])))
             classes.add(key, "text %s (%s): %s; %s" % (
-                " ".join("U+%04X" % cp for cp in r["cps"]), stage, ",".join(sorted(b["why"])),
-                r["msg"] or ("stored %s, read literal %s / hex %s / e2e %s" % (r["esc"], r["lit"], r["hx"], r["got"]))), b,
-                short=" ".join("U+%04X" % cp for cp in r["cps"]))
+                shown, stage, ",".join(sorted(b["why"])),
+                r["msg"] or ("stored %s, read literal %s / hex %s / e2e %s" % (r["esc"][:40], r["lit"][:40], r["hx"][:40], r["got"][:40]))), b,
+                short=r["tag"] or shown)
         classes.report(ctx)
         ev.cov(evaluations=tot["rec"], distinct_nontrivial=tot["nontrivial"], traces_validated_against_impl=tot["rec"],
-               rule="one unit record per generated text (boundary code points, seeded scalar sample, strings over the boundary alphabet) "
-                    "plus 3 e2e records (property, keyword, bookmark) per marked text"
+               rule="one unit record per generated text (boundary code points, seeded scalar sample, strings over the boundary alphabet, "
+                    "syntax-spelling texts = 18 PDF keywords/delimiters x 3 codings x followers x 3 positions x 3 length classes whose UTF-16BE/ASCII "
+                    "bytes spell the syntax) plus one e2e record per carrier (property, keyword, bookmark) that keeps the text verbatim by design"
                     + ("" if ctx.quick else "; plus one unit record for every Unicode scalar value (order and completeness checked by TLC: LexTextTrace!InOrder)")
                     + "; non-trivial = distinct texts containing a code point >= U+0080",
                exhaustive=not ctx.quick, e2e_records=tot["e2e"], distinct_texts=tot["distinct"], scalar_values_swept=tot["swept"])
         ev.assume("expected bytes come from spec/Lex.tla (TextBytes = BOM + UTF-16BE with surrogate arithmetic, Utf8Bytes, RefUnescape)",
-                  "e2e texts avoid ',', ';', control characters and surrounding blanks (keywords are split/trimmed, bookmark titles drop control bytes by design)",
+                  "e2e carriers per text are chosen by LexText!ViasFor: keywords only for texts without ',', ';', CR and surrounding blanks, bookmark titles only for "
+                  "texts without control characters (split/trimmed resp. dropped by design); properties always",
                   "harness built with go1.26.8")
     finally:
         shutil.rmtree(d, ignore_errors=True)
